@@ -24,6 +24,10 @@ type Config struct {
 	SSA   map[string]*ssa.Package
 	Repo  string
 	Funcs int
+	// Inlined lists, per file, the calls of helpers unknown to the rules that were inlined before the analysis
+	Inlined []string
+	// Away: helpers whose every reference was an inlined call ("import path|receiver|name")
+	Away map[string]bool
 	// helpers that play the role of a named helper under another name (anchors.go)
 	alias    map[*types.Func]string
 	aliasRev map[anchorRole]*ssa.Function
@@ -65,25 +69,45 @@ func loadConfig(repo, name, tags string, extra ...string) (*Config, error) {
 		cfg.BuildFlags = []string{"-tags=" + tags}
 	}
 	pats := append([]string{"./..."}, extra...)
-	pkgs, err := packages.Load(cfg, pats...)
-	if err != nil {
-		return nil, err
+	// helpers the rules do not know are inlined at their call sites first (inline.go)
+	overlay, inlined, away, oerr := inlineOverlay(repo, tags)
+	if oerr != nil {
+		overlay, inlined, away = nil, nil, nil
 	}
-	if len(pkgs) == 0 {
-		return nil, fmt.Errorf("no packages loaded from %s", repo)
-	}
-	c := &Config{Name: name, Tags: tags, Pkgs: map[string]*packages.Package{}, SSA: map[string]*ssa.Package{}, Repo: repo}
-	var errs []string
-	packages.Visit(pkgs, nil, func(p *packages.Package) {
-		for _, e := range p.Errors {
-			if strings.HasPrefix(p.PkgPath, modPath) {
-				errs = append(errs, e.Error())
-			}
+	var pkgs []*packages.Package
+	var c *Config
+	for attempt := 0; attempt < 2; attempt++ {
+		cfg.Overlay = overlay
+		var err error
+		pkgs, err = packages.Load(cfg, pats...)
+		if err != nil {
+			return nil, err
 		}
-		c.Pkgs[p.PkgPath] = p
-	})
-	if len(errs) > 0 {
+		if len(pkgs) == 0 {
+			return nil, fmt.Errorf("no packages loaded from %s", repo)
+		}
+		c = &Config{Name: name, Tags: tags, Pkgs: map[string]*packages.Package{}, SSA: map[string]*ssa.Package{}, Repo: repo, Inlined: inlined, Away: away}
+		var errs []string
+		packages.Visit(pkgs, nil, func(p *packages.Package) {
+			for _, e := range p.Errors {
+				if strings.HasPrefix(p.PkgPath, modPath) {
+					errs = append(errs, e.Error())
+				}
+			}
+			c.Pkgs[p.PkgPath] = p
+		})
+		if len(errs) == 0 {
+			break
+		}
 		sort.Strings(errs)
+		if overlay != nil && attempt == 0 {
+			// the rewritten sources do not type-check: analyse the tree as it is (the inliner met a form it does not handle)
+			if os.Getenv("AVFSLINT_DEBUG") != "" {
+				fmt.Fprintf(os.Stderr, "inlining abandoned for %s: %s\n", name, strings.Join(errs, "\n  "))
+			}
+			overlay, away, inlined = nil, nil, []string{"inlining abandoned: the rewritten sources did not type-check"}
+			continue
+		}
 		return nil, fmt.Errorf("type-check errors in %s configuration:\n  %s", name, strings.Join(errs, "\n  "))
 	}
 	c.All = pkgs
@@ -108,6 +132,14 @@ func loadConfig(repo, name, tags string, extra ...string) (*Config, error) {
 	return c, nil
 }
 
+// inlinedAway: f is a helper that only exists in its callers now.
+func (c *Config) inlinedAway(f *ssa.Function) bool {
+	if len(c.Away) == 0 || f == nil || f.Pkg == nil || f.Parent() != nil {
+		return false
+	}
+	return c.Away[f.Pkg.Pkg.Path()+"|"+recvString(f.Signature)+"|"+f.Name()]
+}
+
 // pkg returns the packages.Package for a short name ("memfs").
 func (c *Config) pkg(short string) *packages.Package { return c.Pkgs[longPath(short)] }
 
@@ -128,6 +160,9 @@ func (c *Config) srcFuncs(short string) []*ssa.Function {
 		}
 		if f.Synthetic != "" {
 			return
+		}
+		if c.inlinedAway(f) {
+			return // a helper unknown to the rules whose every call was inlined: its body is analysed in its callers
 		}
 		seen[f] = true
 		out = append(out, f)
